@@ -846,6 +846,199 @@ fn gen_bom_universe(out: &mut Out, rng: &mut Rng, encs: &[&'static Encoding], pr
     }
 }
 
+/// valid UTF-8 filler of exactly `n` bytes mixing 1-4 byte characters, so that `written`
+/// lands inside an old character
+fn filler(rng: &mut Rng, n: usize) -> String {
+    let pool = ["a", "\u{E9}", "\u{3042}", "\u{1F600}", "\u{7FF}", "\u{FFFD}", "z"];
+    let mut s = String::new();
+    while s.len() < n {
+        let c = *rng.pick(&pool);
+        if s.len() + c.len() <= n {
+            s.push_str(c);
+        } else {
+            s.push('x');
+        }
+    }
+    s
+}
+
+/// C05/C06: the `&mut str` and `String` sinks (decode_to_str*, decode_to_string*)
+fn gen_str_sinks(out: &mut Out, rng: &mut Rng, encs: &[&'static Encoding], per: usize) {
+    for &e in encs {
+        for _ in 0..per {
+            let stream = gen_stream(rng, e, 40);
+            let cuts = gen_cuts(rng, stream.len());
+            let repl = rng.chance(1, 2);
+            let to_string = rng.chance(1, 2);
+            let bom = *rng.pick(&[Bom::Off, Bom::Off, Bom::Sniff, Bom::Remove]);
+            let caps: Vec<usize> = (0..4).map(|_| 4 + rng.below(24)).collect();
+            let p = Plan { enc: e, bom, sink16: false, repl, stream: stream.clone(), cuts: cuts.clone(), caps: caps.clone() };
+            let lhs = format!("{} sink={}", plan_lhs(&p), if to_string { "String" } else { "str" });
+            out.oracle_evals += 1;
+            let mut d = new_decoder(e, bom);
+            let mut twin = new_decoder(e, bom);
+            let mut start = 0usize;
+            let mut capi = 0usize;
+            let mut calls = 0usize;
+            let mut finished = false;
+            'chunks: for (ci, &end) in cuts.iter().enumerate() {
+                let last = ci + 1 == cuts.len();
+                let chunk = &stream[start..end];
+                let mut off = 0usize;
+                loop {
+                    let cap = caps[capi % caps.len()];
+                    capi += 1;
+                    calls += 1;
+                    if calls > 400 {
+                        break 'chunks;
+                    }
+                    let expect = one_call(&mut twin, false, repl, &chunk[off..], cap, last, 0, 0);
+                    let (res, rd, written_bytes): (Res, usize, Vec<u8>);
+                    if to_string {
+                        let plen = rng.below(9);
+                        let prefix = filler(rng, plen);
+                        let mut st = String::with_capacity(prefix.len() + cap);
+                        st.push_str(&prefix);
+                        let exact_cap = st.capacity();
+                        let ptr = st.as_ptr();
+                        let r = {
+                            let dref = std::panic::AssertUnwindSafe(&mut d);
+                            let sref = std::panic::AssertUnwindSafe(&mut st);
+                            let src = chunk[off..].to_vec();
+                            catch(move || {
+                                let mut dref = dref;
+                                let mut sref = sref;
+                                if repl {
+                                    let (r, rd, _) = dref.decode_to_string(&src, &mut sref, last);
+                                    (match r { CoderResult::InputEmpty => Res::InputEmpty, CoderResult::OutputFull => Res::OutputFull }, rd)
+                                } else {
+                                    let (r, rd) = dref.decode_to_string_without_replacement(&src, &mut sref, last);
+                                    (match r { DecoderResult::InputEmpty => Res::InputEmpty, DecoderResult::OutputFull => Res::OutputFull, DecoderResult::Malformed(l, a) => Res::Malformed(l, a) }, rd)
+                                }
+                            })
+                        };
+                        if st.as_ptr() != ptr || st.capacity() != exact_cap {
+                            out.fail("C06", &lhs, format!("call#{} String sink reallocated", calls));
+                        }
+                        if std::str::from_utf8(st.as_bytes()).is_err() {
+                            out.fail("C05", &lhs, format!("call#{} String left invalid", calls));
+                        }
+                        if !st.as_bytes().starts_with(prefix.as_bytes()) {
+                            out.fail("C06", &lhs, format!("call#{} String sink altered existing contents", calls));
+                        }
+                        match r {
+                            Ok((r, n)) => {
+                                res = r;
+                                rd = n;
+                                written_bytes = st.as_bytes()[prefix.len().min(st.len())..].to_vec();
+                            }
+                            Err(m) => {
+                                res = Res::Panic(m);
+                                rd = 0;
+                                written_bytes = Vec::new();
+                            }
+                        }
+                        // the String sink offers its whole spare capacity, which may exceed `cap`;
+                        // compare with the slice sink only when they coincide
+                        if exact_cap - prefix.len() == cap && (res != expect.res || rd != expect.read || written_bytes != expect.units8) {
+                            out.fail("C05", &lhs, format!("call#{} String sink differs from the slice sink: {:?}/{} vs {:?}/{}", calls, res, rd, expect.res, expect.read));
+                        }
+                        if exact_cap - prefix.len() != cap {
+                            // keep the twin in step: redo the twin call is impossible; resynchronise by abandoning this history
+                            break 'chunks;
+                        }
+                    } else {
+                        let mut st = filler(rng, cap);
+                        let r = {
+                            let dref = std::panic::AssertUnwindSafe(&mut d);
+                            let sref = std::panic::AssertUnwindSafe(&mut st);
+                            let src = chunk[off..].to_vec();
+                            catch(move || {
+                                let mut dref = dref;
+                                let mut sref = sref;
+                                if repl {
+                                    let (r, rd, wr, _) = dref.decode_to_str(&src, &mut sref, last);
+                                    (match r { CoderResult::InputEmpty => Res::InputEmpty, CoderResult::OutputFull => Res::OutputFull }, rd, wr)
+                                } else {
+                                    let (r, rd, wr) = dref.decode_to_str_without_replacement(&src, &mut sref, last);
+                                    (match r { DecoderResult::InputEmpty => Res::InputEmpty, DecoderResult::OutputFull => Res::OutputFull, DecoderResult::Malformed(l, a) => Res::Malformed(l, a) }, rd, wr)
+                                }
+                            })
+                        };
+                        let bytes = st.as_bytes().to_vec();
+                        if std::str::from_utf8(&bytes).is_err() {
+                            out.fail("C05", &lhs, format!("call#{} &mut str left invalid: {}", calls, hex(&bytes)));
+                        }
+                        if bytes.len() != cap {
+                            out.fail("C06", &lhs, format!("call#{} &mut str changed length", calls));
+                        }
+                        match r {
+                            Ok((r, n, w)) => {
+                                res = r;
+                                rd = n;
+                                written_bytes = bytes[..w.min(bytes.len())].to_vec();
+                            }
+                            Err(m) => {
+                                res = Res::Panic(m);
+                                rd = 0;
+                                written_bytes = Vec::new();
+                            }
+                        }
+                        if res != expect.res || rd != expect.read || written_bytes != expect.units8 {
+                            out.fail("C05", &lhs, format!("call#{} &mut str sink differs from the slice sink: {:?}/{} vs {:?}/{}", calls, res, rd, expect.res, expect.read));
+                        }
+                    }
+                    off += rd.min(chunk.len() - off);
+                    match res {
+                        Res::Panic(_) => break 'chunks,
+                        Res::InputEmpty => {
+                            if last {
+                                finished = true;
+                            }
+                            break;
+                        }
+                        _ => {}
+                    }
+                }
+                start = end;
+            }
+            if finished {
+                // reusing a finished decoder must panic and leave the sink valid and unchanged
+                let mut st = filler(rng, 12);
+                let before = st.clone();
+                let r = {
+                    let dref = std::panic::AssertUnwindSafe(&mut d);
+                    let sref = std::panic::AssertUnwindSafe(&mut st);
+                    catch(move || {
+                        let mut dref = dref;
+                        let mut sref = sref;
+                        let _ = dref.decode_to_str(b"a", &mut sref, false);
+                    })
+                };
+                // (an empty stream never leaves the BOM-sniffing start state, so the decoder is not
+                // actually finished and the call may legitimately succeed)
+                if std::str::from_utf8(st.as_bytes()).is_err() || (r.is_err() && st != before) {
+                    out.fail("C05", &lhs, "&mut str invalid or changed by a panicking call on a finished decoder".into());
+                }
+                let mut s2 = String::from("é");
+                s2.reserve(16);
+                let r2 = {
+                    let dref = std::panic::AssertUnwindSafe(&mut d);
+                    let sref = std::panic::AssertUnwindSafe(&mut s2);
+                    catch(move || {
+                        let mut dref = dref;
+                        let mut sref = sref;
+                        let _ = dref.decode_to_string(b"a", &mut sref, false);
+                    })
+                };
+                if std::str::from_utf8(s2.as_bytes()).is_err() || (r2.is_err() && s2 != "é") {
+                    out.fail("C05", &lhs, "String invalid or changed by a panicking call on a finished decoder".into());
+                }
+            }
+        }
+    }
+}
+
 fn props_for(prop: &str) -> Option<Vec<&'static str>> {
     match prop {
         "C02" => Some(vec!["C02"]),
@@ -869,6 +1062,9 @@ pub fn generate(prop: &str, out: &mut Out, thorough: bool, seed: u64) -> bool {
     let encs: Vec<&'static Encoding> = ALL.to_vec();
     if prop == "C10" {
         gen_bom_universe(out, &mut rng, &encs, &props, thorough);
+    }
+    if prop == "C05" || prop == "C06" {
+        gen_str_sinks(out, &mut rng, &encs, if thorough { 1500 } else { 120 });
     }
     let per = match (prop, thorough) {
         ("C10", false) => 40,
